@@ -73,7 +73,7 @@ func init() {
 				if c > 512 {
 					c = 512
 				}
-				mode := pick(r, "constant", "staged", "ramp", "gaussian", "custom", "users", "users", "file", "fileusers")
+				mode := pick(r, "constant", "staged", "ramp", "gaussian", "custom", "users", "users", "file", "fileusers", "filespan")
 				p := c03Params{N: N, MustHit: true, Body: pick(r, "instant", "instant", "spin", "sleep", "yield")}
 				tickClass := ""
 				switch mode {
@@ -93,6 +93,15 @@ func init() {
 					y += "- duration: 40s\n  mode: users\n"
 					p.Spec = engine.Spec{Mode: "file", YAML: y}
 					tickClass = "users-stages"
+				case "filespan":
+					// every third iteration outlives its 150 ms stage: the next stage's pool triggers while the slow iterations
+					// of the one before still occupy workers; ids stay gapless and exactly N iterations are invoked
+					c = pick(r, 2, 4, 8)
+					N = uint64(c * (25 + r.IntN(20)))
+					p.N = N
+					p.Body = "span"
+					p.Spec = engine.FileSpanSpec(c, N)
+					tickClass = "spanning-stages"
 				case "users":
 					p.Spec = engine.Spec{Mode: "users", Concurrency: c, MaxDurationMS: 60000}
 				case "file":
@@ -205,7 +214,9 @@ func c03Run(c *core.Case, o *core.Outcome) {
 				// failed iterations count towards the limit like any other
 				defer t.Fail()
 			}
-			if p.Body == "sleep1ms" {
+			if p.Body == "span" {
+				engine.SpanSleep(engine.IDOf(t))
+			} else if p.Body == "sleep1ms" {
 				time.Sleep(time.Millisecond)
 				return
 			}
